@@ -20,6 +20,10 @@
      P:send_after_disconnect, P:send_spurious_disconnect, P:send_error, P:close_error
      P:left_waiting, P:left_running
      D:pump_stalled   (detail: the reader did not resume although no receive was waiting)
+     D:close_order    (detail: the reader was cancelled before, not after, the close event was sent)
+     D:wire           (detail: a send/close event the model does not expect at this point)
+   "Nothing is left running" is judged when close() has RETURNED (AppRet close: no stray task, no
+   receive() outstanding) and at End / Final - not at the instant the close event goes on the wire.
      H:*              (the harness contradicts itself: machinery failure) *)
 EXTENDS WsBuffer, Json, IOUtils
 
@@ -63,7 +67,7 @@ JAppCall    == /\ Is("AppCall") /\ apc = "idle" /\ ~due
                   \/ Ev.op = "send" /\ AppSend
                   \/ Ev.op = "close" /\ AppClose
                /\ due' = Returned
-               /\ wire' = (IF apc' = "sending" THEN "due" ELSE "none")
+               /\ wire' = (IF apc' \in {"sending", "closeSending"} THEN "due" ELSE "none")
                /\ Logged /\ UNCHANGED <<creq, rawc>>
 JRetDue     == Is("AppRet") /\ due /\ last = Res(Ev.op, Ev.r)
                /\ due' = FALSE /\ UNCHANGED vars /\ Logged /\ UNCHANGED <<wire, creq, rawc>>
@@ -78,7 +82,7 @@ JRetClose   == Is("AppRet") /\ ~due /\ Ev.op = "close" /\ Ev.r = OKR /\ Ev.p = 0
                /\ CloseFinish /\ wire' = "none" /\ Logged /\ UNCHANGED <<due, creq, rawc>>
 JWireSend   == Is("SrvSend") /\ Ev.t = "send" /\ apc = "sending" /\ wire = "due"
                /\ wire' = "done" /\ UNCHANGED vars /\ Logged /\ UNCHANGED <<due, creq, rawc>>
-JWireClose  == Is("SrvSend") /\ Ev.t = "close" /\ apc = "closing" /\ ~pcancel /\ wire = "none"
+JWireClose  == Is("SrvSend") /\ Ev.t = "close" /\ apc = "closeSending" /\ wire = "due"
                /\ wire' = "done" /\ UNCHANGED vars /\ Logged /\ UNCHANGED <<due, creq, rawc>>
 JCancel     == Is("Cancel") /\ Waiting /\ ~due /\ ~creq
                /\ creq' = TRUE /\ UNCHANGED vars /\ Logged /\ UNCHANGED <<due, wire, rawc>>
@@ -89,17 +93,19 @@ SilentEnabled ==
     \/ pcancel /\ ppc \in Live /\ pull # "pump"
     \/ apc = "recvLoop" /\ queue = <<>> /\ ppc # "done"
     \/ apc = "recvWait" /\ popW = "set"
+    \/ apc = "closeSending" /\ wire = "done"
 SPumpDone   == Silent /\ disc /\ PumpLoop
 SPumpCheck  == Silent /\ PumpCheck
 SPumpWake   == Silent /\ PumpWake
 SPumpCancel == Silent /\ pull # "pump" /\ PumpCancelled
 SRecvWait   == Silent /\ apc = "recvLoop" /\ queue = <<>> /\ ppc # "done" /\ RecvLoop
 SRecvWake   == Silent /\ apc = "recvWait" /\ popW = "set" /\ RecvWake
+SCloseSent  == Silent /\ wire = "done" /\ CloseSent     \* the server's send(close) returned; only now is the pump cancelled
 
 (* ---------------- end of script: quiescence ---------------- *)
 LegitWait == Waiting /\ Quiet /\ ~due /\ ~creq /\ queue = <<>> /\ avail = <<>> /\ inhand = NIL
 EndVerdict ==
-    IF due \/ apc \in {"sending", "closing"} \/ (Waiting /\ ~LegitWait) THEN "P:left_waiting"
+    IF due \/ apc \in {"sending", "closeSending", "closing"} \/ (Waiting /\ ~LegitWait) THEN "P:left_waiting"
     ELSE IF apc = "closed" /\ (Ev.p > 0 \/ Ev.o > 0 \/ pull # "none") THEN "P:left_running"
     ELSE IF ~Quiet THEN "D:pump_stalled"
     ELSE IF (Ev.o > 0) # (pull # "none") THEN "H:outstanding"
@@ -112,7 +118,7 @@ JFinal == Is("Final") /\ verdict' = (IF Ev.p > 0 \/ Ev.o > 0 THEN "P:left_runnin
 LoggedNext == JArrive \/ JPumpCall \/ JRawCall \/ JPumpGot \/ JRawGot \/ JPumpCancel \/ JRawCancel \/ JAppCall
               \/ JRetDue \/ JRetRecv \/ JRetCancel \/ JRetSend \/ JRetClose \/ JWireSend \/ JWireClose \/ JCancel
               \/ JEnd \/ JFinal
-SilentNext == SPumpDone \/ SPumpCheck \/ SPumpWake \/ SPumpCancel \/ SRecvWait \/ SRecvWake
+SilentNext == SPumpDone \/ SPumpCheck \/ SPumpWake \/ SPumpCancel \/ SRecvWait \/ SRecvWake \/ SCloseSent
 
 (* ---------------- the clause a stuck run reports ---------------- *)
 NextMsg == Cardinality({i \in 1..Len(taken) : taken[i] # DISC}) + 1
@@ -127,10 +133,10 @@ Clause ==
       [] Ev.e = "Arrive" -> "H:arrive"
       [] Ev.e = "AppCall" -> "H:appcall"
       [] Ev.e = "Cancel" -> "H:cancel"
-      [] Ev.e = "SrvRecvCancel" -> "P:reader_cancelled"
+      [] Ev.e = "SrvRecvCancel" ->     \* cancelling the pump BEFORE the wire close also satisfies the property: detail
+            IF apc = "closeSending" /\ wire = "due" /\ pull = "pump" THEN "D:close_order" ELSE "P:reader_cancelled"
       [] Ev.e = "SrvSend" ->
             IF Ev.t = "send" /\ last = Res("send", DISC) /\ due THEN "P:send_after_disconnect"
-            ELSE IF Ev.t = "close" /\ pcancel THEN "P:left_running"
             ELSE "D:wire"
       [] Ev.e = "AppRet" /\ Ev.op = "recv" ->
             IF Ev.r = ERR THEN "P:recv_error"
